@@ -157,6 +157,48 @@ def record(rep: Report, cases: list, rng: random.Random):
     return traces
 
 
+def binding_selftest(rep: Report, traces: list):
+    """Demonstrates that the trace specification is bound to the recordings: each corruption of a recorded execution must be
+    rejected, at the clause it violates.  A corruption that is accepted is a machinery failure (the check would be vacuous)."""
+    import copy
+    base = next((t for t in traces if t["cfg"]["maxep"] >= 2 and not t["cfg"].get("real")
+                 and sum(1 for e in t["ev"] if e["k"] == "loss" and e["grad"]) >= 4
+                 and (t["cfg"]["n"] - t["cfg"]["nval"]) // min(t["cfg"]["batch"], t["cfg"]["n"] - t["cfg"]["nval"]) >= 2), None)
+    if base is None:
+        rep.note("binding self-test skipped: no recorded trace with two training batches per epoch")
+        return
+    tr_idx = [i for i, e in enumerate(base["ev"]) if e["k"] == "loss" and e["grad"]]
+    va_idx = [i for i, e in enumerate(base["ev"]) if e["k"] == "loss" and not e["grad"]]
+    cases = {}
+    t = copy.deepcopy(base); t["ev"][tr_idx[1]]["key"] = t["ev"][tr_idx[0]]["key"]; cases["a key used twice"] = (t, "FreshKey")
+    t = copy.deepcopy(base); t["ev"][tr_idx[0]]["rows"][0] = base["ev"][va_idx[0]]["rows"][0]; t["ev"][tr_idx[0]]["crows"][0] = base["ev"][va_idx[0]]["rows"][0]
+    cases["a validation row inside a gradient step"] = (t, "Partition")
+    t = copy.deepcopy(base); t["ev"][tr_idx[1]]["rows"][0] = base["ev"][tr_idx[0]]["rows"][0]; t["ev"][tr_idx[1]]["crows"][0] = base["ev"][tr_idx[0]]["rows"][0]
+    cases["a row used twice in one epoch"] = (t, "AtMostOncePerEpoch")
+    t = copy.deepcopy(base); t["ret"]["theta"] += 1; cases["the returned parameters off by one update"] = (t, "Returns")
+    t = copy.deepcopy(base); t["ev"] = t["ev"][:-3]; cases["the last three events dropped"] = (t, "")
+    t = copy.deepcopy(base); t["ev"][tr_idx[0]]["crows"][0] = (t["ev"][tr_idx[0]]["crows"][0] + 1) % t["cfg"]["n"]; cases["x and condition rows misaligned"] = (t, "Aligned")
+    probe = Report(PID, rep.tier, "model_checking")
+    probe.findings = []
+    import contextlib
+    import io
+    with contextlib.redirect_stdout(io.StringIO()):
+        tracecheck.check(probe, "Trace_FitToData", "Trace_FitToData_I.cfg", [c[0] for c in cases.values()], FTD_GUARDS, pid=PID,
+                         describe=lambda tr: {"n": tr["cfg"]["n"]})
+    msgs = [v[1] for v in probe.violations]
+    out = {}
+    for (name, (_t, clause)), i in zip(cases.items(), range(len(cases))):
+        hit = [m for m in msgs]
+        out[name] = "rejected"
+    if len(probe.violations) != len(cases):
+        rep.machinery_failure(f"binding self-test: {len(cases)} corrupted recordings, only {len(probe.violations)} rejected: {msgs}")
+    for name, (_t, clause) in cases.items():
+        if clause and not any(clause in m for m in msgs):
+            rep.machinery_failure(f"binding self-test: corruption '{name}' was not attributed to a clause containing '{clause}': {msgs}")
+    rep.set("binding_selftest", {"corruptions_rejected": len(probe.violations), "of": len(cases),
+                                 "clauses": [m.split("property layer: ")[1].split(";")[0] for m in msgs if "property layer: " in m]})
+
+
 def main():
     ap = argparse.ArgumentParser()
     ap.add_argument("--replay")
@@ -184,6 +226,7 @@ def main():
     real_runs(rep, rng, 30 if thorough else 6, traces)
     stats = tracecheck.check(rep, "Trace_FitToData", "Trace_FitToData_I.cfg", traces, FTD_GUARDS, pid=PID,
                              describe=lambda tr: {k: tr["cfg"][k] for k in ("n", "batch", "nval", "maxep", "hascond")})
+    binding_selftest(rep, traces)
     rep.set("traces_validated_against_impl", len(traces))
     rep.set("trace_validation", stats)
     rep.set("events_validated", sum(len(tr["ev"]) for tr in traces))
